@@ -1,10 +1,12 @@
 (* Properties/C13.v — an AGWPE connection is a reliable, ordered byte stream.
    What is proven here is the byte-level contract (frame codec, reassembly over any split of
    the TNC->host stream, Read with any caller buffer sizes, the frames produced by Write, the
-   delivery filter).  The goroutine pipeline between the TNC reader and Conn.Read (demux
-   queues, pacing by outstanding-frame polls, timeouts) is exercised by the harness against a
-   simulated TNC, not modelled: the property is labelled partial for that part. *)
-From Verif Require Import Base.Bytes Transport.Agwpe Transport.AgwpeP gen.Tables.
+   delivery filter) and the queue pipeline between the TNC reader and Conn.Read as a transition
+   system under every schedule (order preservation always; completeness when no Enqueue
+   overflows).  That the Go runtime's behaviour is one of the model's schedules, the pacing by
+   outstanding-frame polls and the time-outs are exercised by the harness against a simulated
+   TNC: the property is labelled partial for that part. *)
+From Verif Require Import Base.Bytes Transport.Agwpe Transport.AgwpeP Transport.Pipeline Transport.PipelineP gen.Tables.
 Open Scope N_scope.
 
 (* Decoding what was encoded gives the frame back and leaves exactly the bytes that followed,
@@ -70,15 +72,42 @@ Theorem C13_too_long : forall s,
 Proof. exact too_long_refused. Qed.
 Print Assumptions C13_too_long.
 
-(* The full statement, including the pipeline between the TNC reader and Read: every frame
-   the reader yields that the filter accepts reaches Read, in order, under every schedule.
-   NOT proven: the pipeline is goroutines and bounded channels (demux.go) which this
-   development does not model; the harness exercises it against a simulated TNC and the
-   non-blocking Enqueue that drops frames under a burst is recorded as a known finding. *)
-Definition C13_pipeline_statement : Prop :=
-  forall port peer (fs : list frame) sizes, Forall wf_frame fs ->
-    let delivered := map f_data (List.filter (conn_delivers port peer) fs) in
-    exists rest, concat delivered = concat (conn_reads [] delivered sizes) ++ rest.
+(* The pipeline between the TNC reader and Read (demux queues of the TNC, the port and the
+   connection with their non-blocking Enqueue, then the connection's dataFrames channel) as a
+   transition system under EVERY schedule of arrivals, moves between stages and reads:
+   what Read has been given is always an order-preserving sub-sequence of what the TNC sent
+   (nothing reordered, duplicated or invented) ... *)
+Theorem C13_pipeline_order : forall (frame : Type) es (s : pstate frame),
+  subseq frame (content frame s) (sent s) ->
+  subseq frame (delivered (prun frame s es)) (sent (prun frame s es)).
+Proof. exact delivered_subseq. Qed.
+Print Assumptions C13_pipeline_order.
+
+(* ... and exactly what it sent whenever no Enqueue found its queue full and the pipeline has
+   drained.  (That an Enqueue CAN find its queue full, under a burst, is the known finding
+   'enqueue-drop': the reliable-stream statement holds only on schedules without a drop.) *)
+Theorem C13_pipeline_exact : forall (frame : Type) es (s : pstate frame),
+  drops (prun frame s es) = drops s -> content frame s = sent s ->
+  in_flight frame (stages (prun frame s es)) = [] ->
+  delivered (prun frame s es) = sent (prun frame s es).
+Proof. exact delivered_all. Qed.
+Print Assumptions C13_pipeline_exact.
+
+(* the known finding as a theorem about the model: two frames arriving back to back before the
+   demux goroutine runs lose the second one *)
+Example C13_burst_drops :
+  let s := prun nat agw_pipeline [Arrive 1%nat; Arrive 2%nat; Move 0; Move 1; Move 2; Deliver; Move 0; Move 1; Move 2; Deliver] in
+  delivered s = [1%nat] /\ sent s = [1%nat; 2%nat] /\ drops s = 1%nat.
+Proof. vm_compute. repeat split; reflexivity. Qed.
+
+Example C13_paced_delivers :
+  let s := prun nat agw_pipeline [Arrive 1%nat; Move 0; Arrive 2%nat; Move 1; Move 0; Move 2; Move 1; Move 2; Deliver; Deliver] in
+  delivered s = [1%nat; 2%nat] /\ drops s = 0%nat.
+Proof. vm_compute. split; reflexivity. Qed.
+
+(* What remains unmodelled: that the Go scheduler's behaviour is one of these schedules (the
+   stages are goroutines and channels in demux.go), the Y-poll pacing of Write, and time-outs:
+   exercised by the harness against a scripted TNC. *)
 
 (* Non-vacuity: a data frame on port 2 between two stations is well formed, accepted by the
    connection's filter, survives a split inside its header, and is read back through 2-byte buffers. *)
